@@ -1201,7 +1201,7 @@ def c18_cases(thorough):
 
 
 # ======================================================================================== C08 plan annotations
-PLAN_ANNS = [None, '@NoInject(%s);', '@With(%s);', '@NoWith(%s);', '@Ground(%s);', '@NoInject(%s); @NoWith(%s);', '@NoInject(%s); @With(%s);']
+PLAN_ANNS = [None, '@NoInject(%s);', '@With(%s);', '@NoWith(%s);', '@Ground(%s);', '@NoInject(%s); @NoWith(%s);', '@NoInject(%s); @With(%s);', '@Ground(%s, overwrite: false);']
 
 
 def c08_shapes(thorough):
